@@ -12,7 +12,7 @@ from .values import DT, SV, Seq, UNIT_ROUNDOFF, Z, e_abs, is_sym, kind
 
 BOX_F = 64
 BOX_I = 2**20
-TIMEOUT_MS = 20000
+TIMEOUT_MS = 10000
 
 
 class Stats:
@@ -41,6 +41,48 @@ def box_constraints(inputs: dict) -> list:
     return cs
 
 
+_MULF = None
+
+
+def abstract_nonlinear(term, cache):
+    """replace products of two non-numeral terms by an uninterpreted commutative function: sound for
+    proving equality (unsat stays unsat), may introduce spurious models (then the answer is `unknown`)"""
+    global _MULF
+    if _MULF is None:
+        _MULF = {z3.RealSort(): z3.Function("nl_mul_r", z3.RealSort(), z3.RealSort(), z3.RealSort()),
+                 z3.IntSort(): z3.Function("nl_mul_i", z3.IntSort(), z3.IntSort(), z3.IntSort())}
+    k = term.get_id()
+    if k in cache:
+        return cache[k]
+    if not z3.is_app(term) or term.num_args() == 0:
+        cache[k] = term
+        return term
+    args = [abstract_nonlinear(a, cache) for a in term.children()]
+    if z3.is_mul(term):
+        nums = [a for a in args if z3.is_rational_value(a) or z3.is_int_value(a)]
+        syms = [a for a in args if not (z3.is_rational_value(a) or z3.is_int_value(a))]
+        if len(syms) >= 2:
+            f = _MULF.get(term.sort())
+            if f is not None:
+                syms = sorted(syms, key=lambda a: a.get_id())
+                acc = syms[0]
+                for nxt in syms[1:]:
+                    acc = f(acc, nxt)
+                for n in nums:
+                    acc = n * acc
+                cache[k] = acc
+                return acc
+    if z3.is_div(term) and len(args) == 2 and not (z3.is_rational_value(args[1]) or z3.is_int_value(args[1])):
+        f = z3.Function("nl_div_r", z3.RealSort(), z3.RealSort(), z3.RealSort())
+        if term.sort() == z3.RealSort():
+            r = f(args[0], args[1])
+            cache[k] = r
+            return r
+    r = term.decl()(*args) if args else term
+    cache[k] = r
+    return r
+
+
 def _solve(cs, stats: Stats, timeout_ms=TIMEOUT_MS):
     s = z3.Solver()
     s.set("timeout", timeout_ms)
@@ -55,6 +97,22 @@ def _solve(cs, stats: Stats, timeout_ms=TIMEOUT_MS):
     if r == z3.unsat:
         stats.unsat += 1
         return "unsat", None
+    # nonlinear arithmetic: retry with products abstracted (unsat is still a proof of equality)
+    try:
+        cache: dict = {}
+        s2 = z3.Solver()
+        s2.set("timeout", timeout_ms)
+        s2.add(*[abstract_nonlinear(c, cache) for c in cs])
+        t = time.time()
+        r2 = s2.check()
+        stats.solver_s += time.time() - t
+        stats.queries += 1
+        if r2 == z3.unsat:
+            stats.unsat += 1
+            stats.abstracted = getattr(stats, "abstracted", 0) + 1
+            return "unsat", None
+    except z3.Z3Exception:
+        pass
     stats.unknown += 1
     return "unknown", None
 
@@ -161,7 +219,8 @@ def nice_grid_constraints(inputs: dict) -> list:
     return cs
 
 
-def compare(res1: list, res2: list, inputs: dict, stats: Stats, extra: list | None = None, tol_fn=None):
+def compare(res1: list, res2: list, inputs: dict, stats: Stats, extra: list | None = None, tol_fn=None,
+            skip_if_first_fails=False):
     """Decide whether two guarded evaluations agree for all inputs.
 
     res1/res2: lists of dicts {pc, bottom, outs, assumptions, unwind}
@@ -171,6 +230,8 @@ def compare(res1: list, res2: list, inputs: dict, stats: Stats, extra: list | No
     """
     box = box_constraints(inputs) + list(extra or [])
     verdict = {"verdict": "equiv", "detail": "", "paths": (len(res1), len(res2))}
+    if skip_if_first_fails and len(res1) == 1 and res1[0]["bottom"] and not res1[0]["pc"]:
+        return {"verdict": "original_fails", "detail": res1[0]["bottom"], "paths": verdict["paths"]}
     for r1 in res1:
         for r2 in res2:
             base = box + r1["pc"] + r2["pc"] + r1["assumptions"] + r2["assumptions"] + r1["unwind"] + r2["unwind"]
